@@ -1,92 +1,95 @@
 (* C18/Props.v — the property theorems for C18, and nothing else.
-   Model: C18/Model.v (handlers = lists of atomic segments split at the awaits of
-   analyze_document / collect_dependency_modules / did_close; schedules = interleavings that start
-   handlers in arrival order with at most 4 in flight; RwLock exclusion).
+   Model: C18/Model.v (handlers = lists of atomic segments split at the awaits of analyze_document /
+   finish_analysis / collect_dependency_modules / did_close; schedules = interleavings that start
+   handlers in arrival order with at most 4 in flight; RwLock exclusion; arrival tickets).
    `converged h st`: for every document, the stored (version, text) is the last one the client sent
    (nothing after close) and the last publication for it carries that version and was computed from
    that text by its own analysis.  A fair schedule is one that runs every handler to completion:
-   `run .. = Some st /\ quiescentb h st = true`. *)
+   `run .. = Some st /\ quiescentb h st = true`.
+   Faithful = the code as it is (after 4a5ca1b, bdb7243); Repaired = additionally stores texts that do
+   not parse. *)
 From Coq Require Import ZArith List Bool.
-From Verif Require Import C18.Model C18.Proofs C18.ProofsRepaired C18.ProofsFaithful C18.ProofsWitness C18.ProofsLock.
+From Verif Require Import C18.Model C18.Proofs C18.ProofsConverge C18.ProofsWitness C18.ProofsLock.
 Import ListNotations.
 Open Scope Z_scope.
 
 (* hypotheses are satisfiable: a complete, overlapping, lock-respecting run of 3 handlers on 2
-   documents exists in both variants, and is outside every known class *)
+   documents exists in both variants, outside the known class *)
 Example C18_nonvacuous :
   let h := [Doc true 0 1 (good 1); Doc true 1 1 (good 2); Doc false 0 2 (good 3)] in
-  let sch := [0; 1; 0; 1; 0; 0; 1; 1; 2; 2; 2; 2]%nat in
+  let sch := [0; 1; 2; 0; 1; 2; 0; 1; 1; 2; 2]%nat in
   (exists st, run Faithful h sch = Some st /\ quiescentb h st = true) /\
   (exists st, run Repaired h sch = Some st /\ quiescentb h st = true) /\
-  known_syntax h = false /\ known_dep h = false /\ known_overlap h sch = false.
+  known_syntax h = false /\ former_overlap h sch = true.
 Proof.
   split; [eexists; split; vm_compute; reflexivity|].
   split; [eexists; split; vm_compute; reflexivity|].
-  repeat split; vm_compute; reflexivity.
+  split; vm_compute; reflexivity.
 Qed.
 
-(* T1  THE PROPERTY, for the repaired store: all histories, all fair schedules *)
+(* T1  THE PROPERTY for the code as it is: all histories whose last text per document parses, ALL
+       fair schedules (overlapping handlers and imports of open documents included) *)
+Theorem C18_converges_unless_known : forall h sch st,
+  ~ Known_C18_error_keeps_old h ->
+  run Faithful h sch = Some st -> quiescentb h st = true -> converged h st.
+Proof.
+  intros h sch st H1. apply converges_unless_syntax.
+  unfold Known_C18_error_keeps_old in H1. destruct (known_syntax h); [exfalso; auto|reflexivity].
+Qed.
+Print Assumptions C18_converges_unless_known.
+
+(* T2  THE PROPERTY without exception, for the variant that also stores texts that do not parse *)
 Theorem C18_converges_repaired : forall h sch st,
   run Repaired h sch = Some st -> quiescentb h st = true -> converged h st.
 Proof. exact converges_repaired. Qed.
 Print Assumptions C18_converges_repaired.
 
-(* T2  the code as it is refutes the property: a slow analysis of v1 overwrites v2 *)
-Theorem C18_stale_overwrites_refuted :
-  exists st, run Faithful h_stale s_stale = Some st /\ quiescentb h_stale st = true /\ ~ converged h_stale st.
-Proof. exact stale_overwrites_refuted. Qed.
-Print Assumptions C18_stale_overwrites_refuted.
-
-(* T3  ... a store that runs after close/reopen brings the closed text back *)
-Theorem C18_reopen_after_close_refuted :
-  exists st, run Faithful h_reopen s_reopen = Some st /\ quiescentb h_reopen st = true /\ ~ converged h_reopen st.
-Proof. exact reopen_after_close_refuted. Qed.
-Print Assumptions C18_reopen_after_close_refuted.
-
-(* T4  ... a text that does not parse is never stored: hover keeps answering from the old text
-       (sequential schedule: no concurrency needed) *)
+(* T3  the code as it is refutes the property inside the known class: a text that does not parse is
+       never stored, hover keeps answering from the old text (sequential schedule) *)
 Theorem C18_syntax_error_keeps_old_text_refuted :
   exists st, run Faithful h_syntax s_syntax = Some st /\ quiescentb h_syntax st = true /\ ~ converged h_syntax st.
 Proof. exact syntax_error_keeps_old_text_refuted. Qed.
 Print Assumptions C18_syntax_error_keeps_old_text_refuted.
 
-(* T5  ... analysing a document that imports an open document republishes the dependency's
-       diagnostics from a syntax-only view (sequential schedule) *)
-Theorem C18_dep_republish_refuted :
-  exists st, run Faithful h_dep s_dep = Some st /\ quiescentb h_dep st = true /\ ~ converged h_dep st.
-Proof. exact dep_republish_refuted. Qed.
-Print Assumptions C18_dep_republish_refuted.
+Theorem C18_class_nonempty : Known_C18_error_keeps_old h_syntax.
+Proof. exact syntax_class. Qed.
+Print Assumptions C18_class_nonempty.
 
-(* T6  each witness lies in exactly one class: the classes are non-empty and independent *)
-Theorem C18_classes_independent :
-  (Known_C18_stale_store h_stale s_stale /\ ~ Known_C18_error_keeps_old h_stale /\ ~ Known_C18_dep_republish h_stale) /\
-  (Known_C18_stale_store h_reopen s_reopen /\ ~ Known_C18_error_keeps_old h_reopen /\ ~ Known_C18_dep_republish h_reopen) /\
-  (Known_C18_error_keeps_old h_syntax /\ ~ Known_C18_stale_store h_syntax s_syntax /\ ~ Known_C18_dep_republish h_syntax) /\
-  (Known_C18_dep_republish h_dep /\ ~ Known_C18_stale_store h_dep s_dep /\ ~ Known_C18_error_keeps_old h_dep).
-Proof. exact (conj stale_class (conj reopen_class (conj syntax_class dep_class))). Qed.
-Print Assumptions C18_classes_independent.
+(* T4  regression witness, lsp-stale-store (repaired by 4a5ca1b): v1's handler reaches its store after
+       v2 has stored and published — v2 stays; the old continuation (v1 publishes) no longer exists *)
+Theorem C18_stale_store_regression :
+  (exists st, run Faithful h_stale s_stale = Some st /\ quiescentb h_stale st = true /\
+              docs st 0 = Some (2, good 2) /\ last_pub (pubs st) 0 = Some (own_pub 0 2 (good 2))) /\
+  run Faithful h_stale (s_stale ++ [0%nat]) = None.
+Proof. exact (conj stale_store_regression stale_old_schedule_ends). Qed.
+Print Assumptions C18_stale_store_regression.
 
-(* T7  THE PROPERTY, for the code as it is, on the complement of the three classes: all histories,
-       all fair schedules in which no two handlers of one document overlap *)
-Theorem C18_converges_unless_known : forall h sch st,
-  ~ Known_C18_error_keeps_old h -> ~ Known_C18_dep_republish h -> ~ Known_C18_stale_store h sch ->
-  run Faithful h sch = Some st -> quiescentb h st = true -> converged h st.
-Proof.
-  intros h sch st H1 H2 H3. apply converges_unless_known.
-  - unfold Known_C18_error_keeps_old in H1. destruct (known_syntax h); [exfalso; auto|reflexivity].
-  - unfold Known_C18_dep_republish in H2. destruct (known_dep h); [exfalso; auto|reflexivity].
-  - unfold Known_C18_stale_store in H3. destruct (known_overlap h sch); [exfalso; auto|reflexivity].
-Qed.
-Print Assumptions C18_converges_unless_known.
+(* T5  regression witness, close/reopen: neither a late store of the closed text nor a late close
+       of the reopened document wins *)
+Theorem C18_reopen_after_close_regression :
+  (exists st, run Faithful h_reopen s_reopen = Some st /\ quiescentb h_reopen st = true /\
+              docs st 0 = Some (1, good 3) /\ last_pub (pubs st) 0 = Some (own_pub 0 1 (good 3))) /\
+  (exists st, run Faithful h_reopen s_late_close = Some st /\ quiescentb h_reopen st = true /\
+              docs st 0 = Some (1, good 3) /\ last_pub (pubs st) 0 = Some (own_pub 0 1 (good 3))).
+Proof. exact (conj reopen_regression late_close_regression). Qed.
+Print Assumptions C18_reopen_after_close_regression.
 
-(* T8  the repaired store handles the refuting cases (same histories, counterpart schedules) *)
-Theorem C18_repaired_runs_witnesses :
-  (exists st, run Repaired h_stale [0; 1; 0; 1; 1; 1; 0]%nat = Some st /\ quiescentb h_stale st = true) /\
-  (exists st, run Repaired h_syntax [0; 0; 0; 0; 1; 1; 1]%nat = Some st /\ quiescentb h_syntax st = true).
-Proof. exact (conj repaired_runs_stale repaired_runs_syntax). Qed.
-Print Assumptions C18_repaired_runs_witnesses.
+(* T6  regression witness, lsp-dep-republish (repaired by bdb7243): analysing the importer publishes
+       nothing for the open dependency (2 publications in all: one per document) *)
+Theorem C18_dep_republish_regression :
+  exists st, run Faithful h_dep s_dep = Some st /\ quiescentb h_dep st = true /\
+             docs st 1 = Some (1, good 5) /\ last_pub (pubs st) 1 = Some (own_pub 1 1 (good 5)) /\
+             length (pubs st) = 2%nat.
+Proof. exact dep_republish_regression. Qed.
+Print Assumptions C18_dep_republish_regression.
 
-(* T9  the modelled RwLock: never a writer and a reader at once, in either variant, on every
+(* T7  the Repaired variant completes the refuting history *)
+Theorem C18_repaired_runs_witness :
+  exists st, run Repaired h_syntax [0; 0; 0; 0; 1; 1; 1]%nat = Some st /\ quiescentb h_syntax st = true.
+Proof. exact repaired_runs_syntax. Qed.
+Print Assumptions C18_repaired_runs_witness.
+
+(* T8  the modelled RwLock: never a writer and a reader at once, in either variant, on every
        schedule prefix (so `lock_code` in the correspondence run is well defined) *)
 Theorem C18_lock_exclusion : forall vr h sch st,
   run vr h sch = Some st -> writer st = None \/ readers st = [].
